@@ -714,8 +714,8 @@ func famC15mm(out string) {
 			sample := map[string]any{"scenario": sc.Name, "miner": sh.Miner, "job_index": sh.JobIndex, "jobs_at_submit": sh.JobsAtSubmit, "job_difficulty": sh.JobDiff,
 				"node_easiest_difficulty_before": sh.NowDiffBefore, "node_easiest_difficulty_after": sh.NowDiffAfter, "pow": fmt.Sprintf("%x", sh.Pow), "reply": sh.Reply,
 				"own_ok": sh.OwnOK, "sorted_ok": sh.SortedOK, "note": sh.Note, "blob_with_nonce": fmt.Sprintf("%x", sh.Expected)}
-			sink.Add(fmt.Sprintf("CMmShare %d %d %s %s %s %s %s %s", si, len(sc.Slaves), coqgen.Bool(sh.OwnOK), coqgen.Bool(sh.SortedOK), coqgen.Bool(inHist),
-				coqgen.Bool(sh.Reply == "OK"), coqgen.Bool(powRej), coqgen.Bool(stale)),
+			sink.Add(fmt.Sprintf("CMmShare %d %d %s %s %s %s %s %s %d %d %d %s", si, len(sc.Slaves), coqgen.Bool(sh.OwnOK), coqgen.Bool(sh.SortedOK), coqgen.Bool(inHist),
+				coqgen.Bool(sh.Reply == "OK"), coqgen.Bool(powRej), coqgen.Bool(stale), sh.JobDiff, sh.NowDiffBefore, sh.NowDiffAfter, uint128.FromBytes(sh.Pow[:]).String()),
 				fmt.Sprintf("c15mm/%s/%s/%s/%s", sc.Name, ctx, hist, verdict), sample)
 		}
 		sink.Add(fmt.Sprintf("CMmForwards %d %d", si, stats["alien-forwards"]), fmt.Sprintf("c15mm/%s/forwards/alien=%d", sc.Name, stats["alien-forwards"]),
